@@ -109,6 +109,15 @@ func (e *Env) resolveType(t *TypeExpr) SType {
 			st.Go = types.NewMap(k.Go, v.Go)
 		}
 		return st
+	case "array":
+		el := e.resolveType(t.Elem)
+		var n int64
+		fmt.Sscanf(t.Name, "%d", &n)
+		st := SType{K: KArray, Elem: &el}
+		if el.Go != nil {
+			st.Go = types.NewArray(el.Go, n)
+		}
+		return st
 	case "chan":
 		el := e.resolveType(t.Elem)
 		st := SType{K: KChan, Elem: &el}
@@ -851,8 +860,16 @@ func (vc *VC) readLoc(h *Heap, loc Loc, ft SType) Value {
 			return vc.readCell(h, Loc{loc.Prefix + suffix, loc.Idx})
 		}
 		return SliceVal{Arr: get("#arr", false), Off: get("#off", true), Len: get("#len", true), Cap: get("#cap", true), Elem: *ft.Elem}
-	case KArray, KTuple:
+	case KTuple:
 		efail("read of %s at %s unsupported", ft, loc.Prefix)
+	case KArray:
+		// an array-typed field read as a whole: the opaque array value kept in its own cell (see loadValue)
+		if strings.HasPrefix(loc.Prefix, "elems:") {
+			efail("read of array object %s as a value unsupported in specifications", loc.Prefix)
+		}
+		vloc := Loc{loc.Prefix + "#val", loc.Idx}
+		vc.registerComp(vloc.Prefix, compInfo{Sort: nestSort(SInt, len(loc.Idx)), Depth: len(loc.Idx)})
+		return vc.readCell(h, vloc)
 	}
 	vc.registerComp(loc.Prefix, compInfo{Sort: nestSort(ft.SortOf(), len(loc.Idx)), Depth: len(loc.Idx), RefVals: isRefKind(ft), NonNeg: ft.K == KInt && ft.Unsigned})
 	return vc.readCell(h, loc)
